@@ -236,7 +236,6 @@ func trunc(s string, n int) string {
 	return s
 }
 
-
 // TestC02Stalled: a subscriber that stops reading for a while (back-pressure) but stays connected
 // must still receive every acknowledged publish once it reads again, also when the log rolls
 // segments and truncates in the meantime.
